@@ -2,17 +2,28 @@
 from reg._common import COMMON_ASSUME
 
 ENTRY = {
-    'lean_files': ['Tables/C07.lean', 'Tables/C04.lean', 'Tables/C08.lean', 'Tables/C12.lean', 'Props/C07.lean'],
-    'lemma_files': ['Lemmas/Subdivide.lean', 'Lemmas/Elevate.lean', 'Model/Basic.lean', 'Model/Curve.lean', 'Model/Area.lean'],
+    'lean_files': ['Tables/C07.lean', 'Tables/C04.lean', 'Tables/C08.lean', 'Tables/C12.lean', 'Props/C07.lean', 'Props/C07Variants.lean'],
+    'lemma_files': ['Lemmas/Variants.lean', 'Model/Geometric.lean', 'Model/GeometricInst.lean', 'Model/Newton.lean', 'Model/Helpers.lean', 'Model/Self.lean', 'Lemmas/Subdivide.lean', 'Lemmas/Elevate.lean', 'Model/Basic.lean', 'Model/Curve.lean', 'Model/Area.lean'],
     'script': 'props/c07.py',
     'configs': ['speedup'],
     'rule': 'the 36 (name -> pure / compiled) bindings of the six shim modules are enumerated from the AST on every run; each has a typed '
             'generator: dyadic-lattice inputs (exact arithmetic) => outputs, discrete outcomes and exception types must be identical; '
             'binary64 inputs => outputs within 256 u of the data scale (1e-9 for the iterative / conditioned ones); exhaustive '
             '3-point sequences on the 3x3 lattice + sampled longer ones for the hull; distinct by hash of exact inputs',
-    'partial': ['equivalence theorems exist for the routines whose two implementations are different algorithms (curve subdivision, '
-                'specialisation, elevation, reduction tables, shoelace tables, shared constants); the pipelines (curve / triangle '
-                'intersection, locate) are compared by differential execution only'],
+    'partial': ['Props/C07Variants is a complete inventory of the model: every routine is either one definition for both implementations, or '
+                'two variants proved equal (on every input: elevate, contains_nd, convex hull, cut rule and fullNewton since the repair '
+                'ab67aa1, triangle evaluation with the real binomial, triangle locate; on a stated domain: subdivide / specialize on '
+                'non-empty rows, in_sorted on sorted lists, triangle specialize for degree >= 1, the boundary walk on complete walkable '
+                'lists), or two variants with the exact set of inputs on which they differ and a kernel-decided witness for each '
+                '(is_separating on a zero direction, polygon_collide / convex_hull_collide on single-point hulls, the exception class of an '
+                'invalid locate_point, tangent_only error class, the historical 32-bit binomial and the historical Newton cut rule)',
+                'pipeline_variants_relation: for planar nets with two distinct control points the Python and the compiled all_intersections '
+                'models return the same result, or Python raises ValueError exactly where the compiled code raises NotImplementedError (inside '
+                'coincident_parameters); the _UNHANDLED_LINES exit of from_linearized is unreachable in exact arithmetic in both (unhandled_lines_unreachable); '
+                'the same for self_intersections',
+                'all of this is exact arithmetic; in binary64 the two implementations round differently (different operation orders) and are '
+                'compared by differential execution with the tolerances of the rounding theorems; the triangle-intersection front end '
+                '(add_intersection / add_st_val, edge-pair loop) has no equality theorem (finding F-H sits there)'],
     'trusted_base': ['both implementations of every shim pair are modelled by one definition unless listed as Py./F90. variants; '
                      'Cython glue (_speedup.c is compiled as found; _speedup.pyx edits without regenerated C are invisible)'],
     'assumptions': COMMON_ASSUME,
